@@ -987,3 +987,7 @@ mod tests {
         }
     }
 }
+
+#[cfg(kani)]
+#[path = "/verif/kani/parquet/arrow/arrow_reader/selection/algebra.rs"]
+mod verif_kani;
